@@ -370,6 +370,22 @@ func runCarriage(c CarriageCase) *pbt.Result {
 	// 1. encode the filled pack
 	src := build(d, c.Ver, flds, vals)
 	wire := encode(src)
+	// the package's own serialiser: the bytes it hands out are the caller's (a sender keeps them until the datagram
+	// is out) - they must still be this pack's encoding after other packs were serialised
+	if d.registered {
+		var held, other []byte
+		if catch(func() { held = udp.ToBytesPack(src) }) == nil {
+			if !bytesEq(held, wire) {
+				return pbt.Fail("%s v%d: ToBytesPack gives %d bytes, Write into an encoder of its own %d bytes", c.Type, c.Ver, len(held), len(wire))
+			}
+			blank2 := d.mk(udp.UDP_PACK_VERSION)
+			catch(func() { other = udp.ToBytesPack(blank2) })
+			catch(func() { other = udp.ToBytesPack(build(d, c.Ver, flds, map[string]Field{})) })
+			if !bytesEq(held, wire) {
+				return pbt.Fail("%s v%d: the %d bytes ToBytesPack returned changed after two other packs (%d bytes) were serialised", c.Type, c.Ver, len(held), len(other))
+			}
+		}
+	}
 	orig := map[string]interface{}{} // values as given to the writer
 	ref := build(d, c.Ver, flds, vals)
 	for _, f := range flds {
